@@ -89,6 +89,9 @@ pub struct QueryRouter {
     /// Which server should we be talking to.
     active_role: Option<Role>,
 
+    /// The role is the pool's default: the client has not chosen one, and none was inferred.
+    role_is_default: bool,
+
     /// Should we try to parse queries to route them to replicas or primary automatically
     query_parser_enabled: Option<bool>,
 
@@ -141,6 +144,7 @@ impl QueryRouter {
         QueryRouter {
             active_shard: None,
             active_role: None,
+            role_is_default: true,
             query_parser_enabled: None,
             primary_reads_enabled: None,
             pool_settings: PoolSettings::default(),
@@ -321,6 +325,7 @@ impl QueryRouter {
             }
 
             Command::SetServerRole => {
+                self.role_is_default = value.eq_ignore_ascii_case("default");
                 self.active_role = match value.to_ascii_lowercase().as_ref() {
                     "primary" => {
                         self.query_parser_enabled = Some(false);
@@ -496,6 +501,8 @@ impl QueryRouter {
         }
 
         debug!("Inferring role");
+
+        self.role_is_default = false;
 
         if ast.is_empty() {
             // That's weird, no idea, let's go to primary
@@ -1312,10 +1319,18 @@ impl QueryRouter {
     /// Pin the role, e.g. when an earlier statement of the same batch needs the primary.
     pub fn set_role(&mut self, role: Option<Role>) {
         self.active_role = role;
+        self.role_is_default = false;
     }
 
     pub fn set_default_role(&mut self) {
         self.active_role = self.pool_settings.default_role;
+        self.role_is_default = true;
+    }
+
+    /// The client is on the pool's default role: it has not chosen one itself
+    /// and none was inferred from its statement.
+    pub fn role_is_default(&self) -> bool {
+        self.role_is_default
     }
 
     /// Get the current desired server role we should be talking to.
